@@ -23,6 +23,60 @@ def const_item(v):
     return None
 
 
+def _mapped_table(F, fn):
+    """the flag table written as data: `CONST_ARRAY_OF_TUPLES.iter().map(|(a, b, c, ..)| CommandLineArgument { short_form: a.., .. }).collect()`.
+    Returns the entries (same shape as the aggregate style) or None."""
+    if "CommandLineArgument" not in (fn.ret or ""):
+        return None
+    du = du_of(fn)
+    for bid, t in fn.calls():
+        if (callee_name(t) or "") != "std::iter::Iterator::map" or not t["args"]:
+            continue
+        recv = du.val_operand(t["args"][0])
+        rows = None
+        v = recv
+        for _ in range(6):
+            if v[0] == "call" and v[2]:
+                v = v[2][0]
+            elif v[0] == "cast":
+                v = v[2]
+            elif v[0] == "ref":
+                nv = du.val_place(v[1])
+                if nv == ("place", v[1]):
+                    break
+                v = nv
+            else:
+                break
+        if v[0] == "const" and isinstance(v[1], dict) and "fields" in v[1]:
+            rows = [v[1]["fields"][k] for k in sorted(v[1]["fields"], key=lambda x: int(x))]
+        if not rows:
+            continue
+        for cn in t.get("fn_items", []):
+            cf = F.fns.get(cn)
+            if cf is None or cf.kind != "Closure":
+                continue
+            cdu = du_of(cf)
+            for b in cf.blocks:
+                for st in b["stmts"]:
+                    if st["k"] == "assign" and st["rv"]["k"] == "aggregate" and (st["rv"].get("adt") or "").endswith("CommandLineArgument"):
+                        d = dict(zip(st["rv"]["fields"], st["rv"]["ops"]))
+                        col = {}
+                        for fld in ("short_form", "long_form", "environment_variable"):
+                            fv = cdu.val_operand(d[fld])
+                            while fv[0] == "call" and fv[2]:
+                                fv = fv[2][0]
+                            idx = [p[1] for p in (fv[1][1] if fv[0] in ("ref", "place") else ()) if isinstance(p, tuple) and p[0] == "f"]
+                            if fv[0] not in ("ref", "place") or fv[1][0] != 2 or len(idx) != 1:
+                                return None
+                            col[fld] = str(idx[0])
+                        out = []
+                        for row in rows:
+                            f = row.get("fields", {}) if isinstance(row, dict) else {}
+                            out.append({"short": f.get(col["short_form"]), "long": f.get(col["long_form"]), "var": f.get(col["environment_variable"]), "var_item": None, "line": st["span"]["line"]})
+                        return out
+    return None
+
+
 def run(ctx):
     F, G, R = ctx.F, ctx.G, ctx.R
     chk = Check("C12", ctx.tier, "Fold order defaults < environment < file < command line; flag table complete, distinct and paired with the setting constants; defaults guarded and paired; every documented spelling reaches a table entry; writers unconditional; getters read their own variables.")
@@ -67,7 +121,7 @@ def run(ctx):
         if calls(fn, lambda c: c == "std::fs::read_to_string") and any(callee_name(t) in F.fns and "config" in callee_name(t) for _, t in fn.calls()):
             role["file"] = fn
         aggs = [s for b in fn.blocks for s in b["stmts"] if s["k"] == "assign" and s["rv"]["k"] == "aggregate" and (s["rv"].get("adt") or "").endswith("CommandLineArgument")]
-        if len(aggs) >= 8:
+        if len(aggs) >= 8 or (_mapped_table(F, fn) is not None):
             role["table"] = fn
         nvar = len({const_str(du_of(fn).val_operand(t["args"][0])) for _, t in calls(fn, lambda c: c == "std::env::var") if t["args"]})
         if nvar >= 8 and nset == 0 and not calls(fn, lambda c: c == "std::vec::Vec::<T, A>::push") and fn.ret == "()":
@@ -130,7 +184,10 @@ def run(ctx):
     tfn = role["table"]
     tdu = du_of(tfn)
     table = []
-    for b in tfn.blocks:
+    mapped = _mapped_table(F, tfn)
+    if mapped is not None:
+        table = mapped
+    for b in (tfn.blocks if mapped is None else []):
         for s in b["stmts"]:
             if s["k"] == "assign" and s["rv"]["k"] == "aggregate" and (s["rv"].get("adt") or "").endswith("CommandLineArgument"):
                 d = dict(zip(s["rv"]["fields"], s["rv"]["ops"]))
@@ -150,6 +207,8 @@ def run(ctx):
             r2.violate("C12|R2|missing|%s" % n, "setting %s has no flag table entry: it cannot be set from the config file or the command line" % n, tfn.file, tfn.span["line"], tfn.def_)
     # the table function returns the vector it pushed every entry into (every aggregate is pushed)
     npush = len([1 for _, t in tfn.calls() if callee_name(t) == "std::vec::Vec::<T, A>::push"])
+    if mapped is not None:
+        npush = len(table) if any((callee_name(t) or "") == "std::iter::Iterator::collect" for _, t in tfn.calls()) else 0
     if npush < len(table):
         r2.violate("C12|R2|not-pushed", "%d flag entries are built but only %d are pushed into the table" % (len(table), npush), tfn.file, tfn.span["line"], tfn.def_)
 
@@ -274,6 +333,9 @@ def run(ctx):
             r4b.violate("C12|R4b|%s|join" % reader.def_, "%s does not build '--[table-]key=value' from the '-' and '=' constants (saw %s)" % (reader.def_, sorted(consts)), reader.file, reader.span["line"], reader.def_)
     # matcher closure: equality only
     matcher_closures = [f for f in fns if f.kind == "Closure" and any(e.src and e.src.endswith("CommandLineArgument::_parse") for e in G.inn.get(f.def_, []))]
+    if not matcher_closures:
+        # the lookup written as an explicit loop inside _parse itself
+        matcher_closures = [f for f in fns if f.def_.endswith("CommandLineArgument::_parse") and any("PartialEq" in (callee_name(t) or "") for _, t in f.calls())]
     for cf in matcher_closures:
         bad = [callee_name(t) for _, t in cf.calls() if re.search(r"impl str>::(contains|starts_with|ends_with|find|eq_ignore_ascii_case|to_lowercase|trim_start_matches)", callee_name(t) or "")]
         has_eq = any(re.search(r"(impl str>::eq|PartialEq.*::eq)", callee_name(t) or "") for _, t in cf.calls())
